@@ -117,14 +117,14 @@ def plan(tier):
     if tier == 'thorough':
         writes = [SET_INLINE, SET_FILE, ADD, INCR, POP, DELETE]
         reads = [GET, CONTAINS, LEN]
-        # 2 clients x 2 operations, all interleavings
+        # 2 clients x 2 operations (<= 3 preemptions)
         for w1, w2 in itertools.product(writes, repeat=2):
             for x in writes + reads:
-                units.append(([[w1, w2], [x]], 'file', 'own', MFS, None))
-        # 3 clients, preemption bound 3
+                units.append(([[w1, w2], [x]], 'file', 'own', MFS, 3))
+        # 3 clients, preemption bound 2
         for a, b, c in itertools.combinations_with_replacement(
                 writes + reads[:1], 3):
-            units.append(([[a], [b], [c]], 'file', 'own', MFS, 3))
+            units.append(([[a], [b], [c]], 'file', 'own', MFS, 2))
     return units
 
 
@@ -174,9 +174,11 @@ def main(tier, seed):
         raise SystemExit('INTERNAL ERROR: POR cross-check failed')
     rep.bounds = {
         'scenarios': len(units),
-        'clients': '2 (all interleavings); 3 with <= 3 preemptions (thorough)',
-        'program_length': '1 (quick, plus failing-op prefixes), <= 2 '
-                          '(thorough)',
+        'clients': '2 (all interleavings for 1x1 programs); 3 with <= 2 '
+                   'preemptions (thorough)',
+        'program_length': '1 (quick, plus failing-op prefixes, row-id reuse '
+                          'and handle-opening programs), 2x1 with <= 3 '
+                          'preemptions (thorough)',
         'modes': ['own Cache object per client', 'one shared Cache object'],
         'por_crosscheck': '%d scenarios re-explored without reduction, '
                           'outcome sets identical' % len(sub),
